@@ -19,6 +19,7 @@ RULE = (
     "intersection over all 20 results of a unit), decimal-weight ramps, the same shares written at other magnitudes, multi-branch programs with the condition field "
     "flipped, label changes, golden ids sitting on old and new boundaries. distinct_nontrivial = distinct (unit, pair) "
     "where the unit changed group or lies within 1% of a moved boundary."
+    ' Added later: exponent-notation and 150 / 300-digit weights, ramps with four-digit subtotals under a 3-digit decimal context of the host, a redeploy layer (old weights here, new weights in child interpreters with other hash seeds, five splitters, one of them None), in-place ramps served by copies of the recompiled evaluator.'
 )
 ASSUMPTIONS = [
     "a monotonicity break is reported only if the unit's position (from the hash probe, else from the published scheme) "
